@@ -10,13 +10,13 @@ open Goyang.Gen.Consts Goyang.Model.Lex
 
 /-- the error budget (`maxErrors`, also the capacity of the token channel) and the end-of-input rune -/
 theorem lexer_limits_tied :
-    (maxErrors : Int) = «yang.maxErrors» ∧ (eofRune : Int) = «yang.eof» := by
+    (maxErrors : Int) = «yang:maxErrors» ∧ (eofRune : Int) = «yang:eof» := by
   decide
 
 /-- the token codes are distinct and none of them is a byte (punctuation tokens use the byte itself) -/
 theorem token_codes_distinct :
-    [«yang.tEOF», «yang.tError», «yang.tString», «yang.tUnquoted»].Nodup ∧
-    ∀ c ∈ [«yang.tEOF», «yang.tError», «yang.tString», «yang.tUnquoted»], c < 0 := by
+    [«yang:tEOF», «yang:tError», «yang:tString», «yang:tUnquoted»].Nodup ∧
+    ∀ c ∈ [«yang:tEOF», «yang:tError», «yang:tString», «yang:tUnquoted»], c < 0 := by
   decide
 
 end Goyang.Props.ConstsLex
